@@ -591,7 +591,7 @@ Qed.
 Lemma partition_transmission (Pseg Pmono : plane S) n m lam r c : partition_of Pseg Pmono n m ->
   transmission Pseg lam n m r c = transmission Pmono lam n m r c.
 Proof.
-  intros (Ea & Eo & _ & _ & Hd & g & Eg & Hu). unfold transmission. rewrite Ea, Eo. f_equal.
+  intros (_ & _ & Ea & Eo & _ & _ & Hd & g & Eg & Hu). unfold transmission. rewrite Ea, Eo. f_equal.
   rewrite cover_disjoint by assumption. rewrite Eg. cbn [masks_of]. rewrite cover_cons, <- Hu.
   cbn [cover fold_right]. ring.
 Qed.
@@ -603,7 +603,7 @@ Theorem plane_multiply_partition (Pseg Pmono : plane S) (w : pwf S) n m px1 px2 
     pw_lam ws = pw_lam wm /\ pw_shape ws = pw_shape wm /\
     forall r c, embed_sum (pw_data ws) r c = embed_sum (pw_data wm) r c.
 Proof.
-  intros Hp Hf Hp1 Hp2. pose proof Hp as (_ & _ & Ok1 & Ok2 & _).
+  intros Hp Hf Hp1 Hp2. pose proof Hp as (_ & _ & _ & _ & Ok1 & Ok2 & _).
   apply (plane_multiply_same_transmission Pseg Pmono w w n m px1 px2); try assumption; try reflexivity.
   intros r c. now apply partition_transmission.
 Qed.
@@ -625,16 +625,18 @@ Proof. unfold plane_multiply. destruct (mul_pixelscale (pl_pix P) (pw_pix w)) as
 Theorem chain_same_optics (ps1 ps2 : list (plane S)) : Forall2 same_optics ps1 ps2 ->
   forall w1 w2 w1' w2', wf_equiv w1 w2 -> regular_chain ps1 w1 w1' -> regular_chain ps2 w2 w2' -> wf_equiv w1' w2'.
 Proof.
-  intros H. induction H as [|P1 P2 ps1 ps2 (n & m & O1 & O2 & HT) H IH]; intros w1 w2 w1' w2' He R1 R2.
+  intros H. induction H as [|P1 P2 ps1 ps2 (Epx & Efo & n & m & O1 & O2 & HT) H IH]; intros w1 w2 w1' w2' He R1 R2.
   - inversion R1; inversion R2; subst. exact He.
   - inversion R1 as [|? ? ? a ? M1 N1 T1]; inversion R2 as [|? ? ? b ? M2 N2 T2]; subst.
     apply (IH a b); try assumption.
-    destruct He as (El & Esh & V1 & V2 & Ee).
+    destruct He as (El & Esh & Epix & Efoc & V1 & V2 & Ee).
     destruct (plane_multiply_ok_pix _ _ _ M1) as (px1 & Hp1). destruct (plane_multiply_ok_pix _ _ _ M2) as (px2 & Hp2).
-    destruct (plane_multiply_spec P1 w1 n m px1 O1 V1 Hp1) as (a' & Ea & La & _ & Sa & _ & Ga).
-    destruct (plane_multiply_spec P2 w2 n m px2 O2 V2 Hp2) as (b' & Eb & Lb & _ & Sb & _ & Gb).
+    destruct (plane_multiply_spec P1 w1 n m px1 O1 V1 Hp1) as (a' & Ea & La & Pa & Sa & Fa & Ga).
+    destruct (plane_multiply_spec P2 w2 n m px2 O2 V2 Hp2) as (b' & Eb & Lb & Pb & Sb & Fb & Gb).
     rewrite M1 in Ea. injection Ea as <-. rewrite M2 in Eb. injection Eb as <-.
-    split; [congruence|]. split; [congruence|]. split; [intros f Hf; now apply N1|]. split; [intros f Hf; now apply N2|].
+    assert (px1 = px2) by (rewrite Epx, Epix in Hp1; congruence).
+    split; [congruence|]. split; [congruence|]. split; [congruence|]. split; [rewrite Fa, Fb, Efo, Efoc; reflexivity|].
+    split; [intros f Hf; now apply N1|]. split; [intros f Hf; now apply N2|].
     intros r c. rewrite !no_ones_ec by assumption. rewrite Ga, Gb, Ee, <- El. now rewrite HT.
 Qed.
 
@@ -643,18 +645,19 @@ Theorem chain_partition (segs monos : list (plane S)) :
   Forall2 (fun Ps Pm => exists n m, partition_of Ps Pm n m) segs monos ->
   forall w ws wm, (forall f, In f (pw_data w) -> fvalid f) ->
   regular_chain segs w ws -> regular_chain monos w wm ->
-  pw_lam ws = pw_lam wm /\ pw_shape ws = pw_shape wm /\
+  pw_lam ws = pw_lam wm /\ pw_shape ws = pw_shape wm /\ pw_pix ws = pw_pix wm /\ pw_focal ws = pw_focal wm /\
   forall r c, ec_sum (pw_data ws) r c = ec_sum (pw_data wm) r c.
 Proof.
   intros H.
   assert (H' : Forall2 same_optics segs monos).
   { induction H as [|Ps Pm l1 l2 (n & m & Hp) H IH]; constructor; [|exact IH].
-    exists n, m. pose proof Hp as (_ & _ & O1 & O2 & _). split; [exact O1|]. split; [exact O2|].
+    pose proof Hp as (E1 & E2 & _ & _ & O1 & O2 & _). split; [exact E1|]. split; [exact E2|].
+    exists n, m. split; [exact O1|]. split; [exact O2|].
     intros lam r c. now apply partition_transmission. }
   intros w ws wm Hf R1 R2.
-  destruct (chain_same_optics segs monos H' w w ws wm) as (A & B & _ & _ & C); try assumption.
+  destruct (chain_same_optics segs monos H' w w ws wm) as (A & B & C & D & _ & _ & E); try assumption.
   - repeat split; try assumption; reflexivity.
-  - now repeat split.
+  - repeat split; assumption.
 Qed.
 
 (* ---- Plane.__init__ ---- *)
